@@ -74,9 +74,10 @@ manifest = {
     ],
     "checks": checks,
     "not_applicable": not_applicable,
-    "notes": "Exit codes of ./check: 0 held (KNOWN-FINDING lines for entries of known_findings.json), 1 VIOLATION, "
-             "2 ANALYSIS-ERROR (anchor vanished / instance floor not met / unknown shape / tool crash). Fix commits made in "
-             "/repo are listed in known_findings.json with status 'fixed'.",
+    "notes": "Exit codes of ./check: 0 held (KNOWN-FINDING lines for entries of known_findings.json), 1 VIOLATION (a violating "
+             "construct was established; if a later rule then lost its anchor that is printed as a note), 2 ANALYSIS-ERROR (no violation "
+             "established and an anchor vanished / an instance floor is not met / a shape is unknown / the tool crashed - never a pass). "
+             "Fix commits made in /repo are listed in known_findings.json with status 'fixed'.",
 }
 with open(os.path.join(HERE, "MANIFEST.json"), "w") as fh:
     json.dump(manifest, fh, indent=1)
